@@ -55,9 +55,26 @@ def r1_restore(ctx):
             name = sym.short(strip_generics(b.path).replace("::{closure#0}", ""))
             exits = 0
             for p in ctx.paths(b):
-                stores = [e for e in p if e[0] == "store" and has_field(e[2], "trim_text_start")]
-                other = [e for e in p if e[0] == "store" and is_config_field(e[2]) and not has_field(e[2], "trim_text_start")]
-                ctx.ob("R1", "%s:only-trim_text_start" % name, not other, "no other Config field is written by read_to_end (%s)" % [sym.show(e[2]) for e in other], config=cfg) if other else None
+                # the documented setters write several fields at once: Config::trim_text(x) = {trim_text_start, trim_text_end} := x
+                SETTERS = {"Config::trim_text": ("trim_text_start", "trim_text_end"), "Config::enable_all_checks": ("check_comments", "check_end_names")}
+                stores = []
+                other = []
+                for e in p:
+                    if e[0] == "store" and has_field(e[2], "trim_text_start"):
+                        stores.append(e)
+                    elif e[0] == "store" and is_config_field(e[2]):
+                        other.append(sym.show(e[2]))
+                    elif e[0] == "call":
+                        for sname, flds in SETTERS.items():
+                            if name_is(e[2], sname):
+                                for f in flds:
+                                    if f == "trim_text_start":
+                                        tgt = ("pl", strip_wrappers(e[3][0]), (("f", 0, "trim_text_start", "quick_xml::reader::Config"),))
+                                        stores.append(("store", e[1], mk(e[3][0], "trim_text_start"), e[3][1], e[4]))
+                                    else:
+                                        other.append("%s (through %s)" % (f, sname))
+                if other:
+                    ctx.ob("R1", "%s:only-trim_text_start" % name, False, "read_to_end may only touch trim_text_start (which it saves and restores); it also writes %s" % sorted(set(other)), config=cfg)
                 if ends(p) != "ret":
                     continue
                 exits += 1
@@ -75,6 +92,14 @@ def r1_restore(ctx):
                        "exit %s: trim_text_start must be disabled at entry and the value read at entry written back before returning (stores on path: %s)" % (kind, [sym.show(e[3]) for e in stores]),
                        loc=b.loc(stores[-1][4]) if stores else None, config=cfg)
             ctx.floor("R1", "exits of " + name, exits, 3, config=cfg)
+
+
+def mk(cfg_ref, field):
+    """place term `(*cfg_ref).field`"""
+    t = cfg_ref[1] if cfg_ref[0] == "ref" else ("pl", cfg_ref, ("*",))
+    if t[0] == "pl":
+        return ("pl", t[1], t[2] + (("f", 0, field, "quick_xml::reader::Config"),))
+    return ("pl", t, (("f", 0, field, "quick_xml::reader::Config"),))
 
 
 def has_field(t, name):
